@@ -240,6 +240,6 @@ MANIFEST = {
             "observation points of the real code (iterator after full iteration, database after import, reopened database "
             "and the raw directives table read with plain sqlite3); feature counts show that comment, blank, FASTA and "
             "post-FASTA lines produce nothing. All interleavings of the four line kinds up to a length bound are executed "
-            "for four checklines values; longer files are random with directives placed after the inspection window.",
+            "for four checklines values; longer files are random with directives placed after the inspection window. Input forms are path, gzip path and from_string, LF and CRLF; directive/comment texts include bare '##', '#!' pragmas and characters str.splitlines() splits on; the thorough tier adds a file with more directives than SQLite accepts as bound parameters.",
     "note": "Trusted: the reference classifier. Whitespace-only lines and '##FASTA' with trailing blanks are not generated.",
 }
